@@ -593,6 +593,8 @@ class Body:
                         v = known[op["pl"]["l"]]
                 elif rv["rv"] == "agg" and rv.get("ak") == "adt" and not rv.get("ops") and rv.get("adt") in enum_discr and rv.get("variant") in enum_discr[rv["adt"]]:
                     v = ("enum", enum_discr[rv["adt"]][rv["variant"]])
+                elif rv["rv"] == "agg" and rv.get("ak") == "adt" and rv.get("adt") in ("std::option::Option", "std::result::Result") and "vidx" in rv:
+                    v = ("enum", int(rv["vidx"]))      # the variant built is known whatever its payload
                 elif rv["rv"] == "discr" and not rv["pl"]["p"] and rv["pl"]["l"] in known and known[rv["pl"]["l"]][0] == "enum":
                     v = ("int", known[rv["pl"]["l"]][1])
                 if v is not None:
@@ -665,6 +667,15 @@ class Body:
                         v = enum_discr[x.x["ty"].lstrip("&")].get(x.x["variant"])
                     elif x.k == "agg" and x.x.get("ak") == "adt" and not x.a and x.x.get("adt") in enum_discr:
                         v = enum_discr[x.x["adt"]].get(x.x.get("variant"))
+                    elif x.k == "agg" and x.x.get("ak") == "adt" and x.x.get("adt") in ("std::option::Option", "std::result::Result"):
+                        v = {"None": 0, "Some": 1, "Ok": 0, "Err": 1}.get(x.x.get("variant"))
+                    elif e.a[0].k == "call" and e.a[0].x["path"].endswith("Try>::branch") and e.a[0].a:
+                        # `?` applied to a value whose variant is known: Ok / Some continue, Err / None leave
+                        y = e.a[0].a[0]
+                        while y.k in ("ref", "deref"):
+                            y = y.a[0]
+                        if y.k == "agg" and y.x.get("ak") == "adt" and y.x.get("adt") in ("std::option::Option", "std::result::Result"):
+                            v = {"Ok": 0, "Some": 0, "Err": 1, "None": 1}.get(y.x.get("variant"))
                     if v is not None:
                         forced[bb] = v
                 if not forced:
